@@ -2018,7 +2018,10 @@ class ImportManager:
     self.module_selectors = {}
     self.names = set()
     # Prefer to order `from` style imports first.
-    for statement in sorted(imports, key=lambda s: (s.module, not s.is_from)):
+    # The alias is part of the key so that, when one module was imported in
+    # several forms, which form is kept does not depend on set iteration order.
+    for statement in sorted(
+        imports, key=lambda s: (s.module, not s.is_from, s.alias or '')):
       self.add_import(statement)
 
   @property
